@@ -47,7 +47,7 @@ func c11Run(c c11Case) Verdict {
 	w.Send([]byte(sb.String()))
 	_, fin := w.Finish()
 	if !fin {
-		return Verdict{Inconclusive: "watchdog while finishing"}
+		return finishFail(w)
 	}
 	v := Verdict{}
 	switch res.Class {
